@@ -27,21 +27,26 @@ import (
 //go:embed baseline_closures.txt
 var baselineClosuresTxt string
 
-func baselineClosures() map[string]map[string]bool {
-	m := map[string]map[string]bool{}
+// baselineClosures: enclosing function -> closure variable name -> its function type.
+func baselineClosures() map[string]map[string]string {
+	m := map[string]map[string]string{}
 	for _, l := range strings.Split(baselineClosuresTxt, "\n") {
 		l = strings.TrimSpace(l)
 		if l == "" || strings.HasPrefix(l, "#") {
 			continue
 		}
 		f := strings.Split(l, "\t")
-		if len(f) != 2 {
+		if len(f) < 2 {
 			continue
 		}
 		if m[f[0]] == nil {
-			m[f[0]] = map[string]bool{}
+			m[f[0]] = map[string]string{}
 		}
-		m[f[0]][f[1]] = true
+		sig := ""
+		if len(f) > 2 {
+			sig = f[2]
+		}
+		m[f[0]][f[1]] = sig
 	}
 	return m
 }
@@ -203,7 +208,7 @@ func closureInventory(pkgs []*packages.Package) []string {
 	seen := map[string]bool{}
 	var out []string
 	for _, cv := range closureVars(pkgs) {
-		l := cv.encl + "\t" + cv.obj.Name()
+		l := cv.encl + "\t" + cv.obj.Name() + "\t" + closureSig(cv)
 		if !seen[l] {
 			seen[l] = true
 			out = append(out, l)
@@ -217,7 +222,11 @@ func closureInventory(pkgs []*packages.Package) []string {
 // function the variables whose names are recorded are the old ones; the others are new provided
 // their number equals the surplus over the recorded count (otherwise a recorded closure may just
 // have been renamed and nothing is touched).
-func newClosureVars(pkgs []*packages.Package, base map[string]map[string]bool, skip map[string]bool) []*closureVar {
+func closureSig(cv *closureVar) string {
+	return types.TypeString(cv.obj.Type(), func(p *types.Package) string { return p.Path() })
+}
+
+func newClosureVars(pkgs []*packages.Package, base map[string]map[string]string, skip map[string]bool) []*closureVar {
 	byEncl := map[string][]*closureVar{}
 	for _, cv := range closureVars(pkgs) {
 		byEncl[cv.encl] = append(byEncl[cv.encl], cv)
@@ -231,21 +240,22 @@ func newClosureVars(pkgs []*packages.Package, base map[string]map[string]bool, s
 			names[cv.obj.Name()] = true
 		}
 		for _, cv := range cvs {
-			if !b[cv.obj.Name()] {
+			if _, known := b[cv.obj.Name()]; !known {
 				unknown = append(unknown, cv)
 			}
 		}
-		missing := 0
-		for n := range b {
+		// a recorded closure that is gone under its name may be one of the unknown ones (renamed): an
+		// unknown closure of the same function type as a missing one is left alone
+		missingSigs := map[string]bool{}
+		for n, sig := range b {
 			if !names[n] {
-				missing++
+				missingSigs[sig] = true
 			}
 		}
-		if missing > 0 {
-			// a recorded closure is gone under its name: it may be one of the unknown ones (renamed)
-			continue
-		}
 		for _, cv := range unknown {
+			if missingSigs[closureSig(cv)] || missingSigs[""] {
+				continue
+			}
 			if cv.written || skip[closureKey(cv)] {
 				continue
 			}
